@@ -3,6 +3,7 @@
 package alt
 
 import (
+	"math"
 	"strconv"
 	"time"
 
@@ -33,7 +34,13 @@ func Int(v any, defaults ...int64) (i int64) {
 	case int32:
 		i = int64(tv)
 	case uint:
-		i = int64(tv)
+		if math.MaxInt64 < uint64(tv) { // not an int64, conversion is not possible
+			if 0 < len(defaults) {
+				i = defaults[0]
+			}
+		} else {
+			i = int64(tv)
+		}
 	case uint8:
 		i = int64(tv)
 	case uint16:
@@ -41,7 +48,13 @@ func Int(v any, defaults ...int64) (i int64) {
 	case uint32:
 		i = int64(tv)
 	case uint64:
-		i = int64(tv)
+		if math.MaxInt64 < tv { // not an int64, conversion is not possible
+			if 0 < len(defaults) {
+				i = defaults[0]
+			}
+		} else {
+			i = int64(tv)
+		}
 	case float32:
 		i = int64(tv)
 		if float32(i) != tv {
